@@ -456,40 +456,6 @@ pub fn c11_mutate_graph_as_dataset() {
     }
 }
 
-// default pattern-based bulk mutations through the one-graph view touch that graph only
-#[cfg(kani)]
-#[kani::proof]
-#[kani::unwind(6)]
-pub fn c11_bulk_through_dataset_graph() {
-    let slots = any_slots(false);
-    let mut d1 = ArrDs { q: slots };
-    let g: u8 = kani::any();
-    kani::assume(g < 3);
-    let sv: u8 = kani::any();
-    kani::assume(sv < 3);
-    let retain: bool = kani::any();
-    let r = if retain {
-        d1.graph_mut(gname(g)).retain_matching([VT(sv)], Any, Any).map(|_| 0)
-    } else {
-        d1.graph_mut(gname(g)).remove_matching([VT(sv)], Any, Any)
-    };
-    assert!(r.is_ok());
-    let mut removed = 0;
-    let mut i = 0;
-    while i < NQ {
-        if let Some(q) = slots[i] {
-            let goes = q.g == g && ((q.s == sv) != retain);
-            if goes {
-                removed += 1;
-                assert!(d1.find(q).is_none(), "a triple that had to be removed through the view is still in the store");
-            } else {
-                assert!(d1.find(q).is_some(), "bulk mutation through a one-graph view removed a quad of another graph / a non-matching triple");
-            }
-        }
-        i += 1;
-    }
-    kani::cover!(removed >= 1, "something removed");
-    if !retain {
-        assert!(r.ok() == Some(removed), "remove_matching through the view returned a wrong count");
-    }
-}
+// NB: remove_matching / retain_matching through a view are NOT covered: the default methods collect the matches
+// into a Vec<[SimpleTerm; 3]> (heap strings, SimpleTerm::from_term); two harness formulations (3 and 2 quads)
+// did not finish in 15 and 40 minutes. Stated as outside the claim in DESIGN.md.
